@@ -32,7 +32,8 @@ TARGETS = ["c1", "c2", "c3"]
 MUTATORS = ["knot_insert", "knot_insert_bad", "knot_remove", "knot_remove_bad", "knot_clean", "degree_increase",
             "degree_increase_bad", "degree_decrease", "degree_set", "degree_set_bad", "degree_clean", "clean",
             "ctrlpoints_ok", "ctrlpoints_badlen", "ctrlpoints_noniter", "weights_ok", "weights_badlen", "weights_zero",
-            "weights_none", "knotvector_refine", "knotvector_other", "fit_curve", "fit_points_few", "fit_points_ok"]
+            "weights_none", "knotvector_refine", "knotvector_other", "fit_curve", "fit_points_few", "fit_points_ok",
+            "fit_rational"]
 READERS = ["eval", "eval_outside", "add", "sub", "mul", "div", "neg", "scalar_ops", "eq", "split", "fraction",
            "copy_mutate", "deepcopy_mutate", "derivate", "integrate", "fit_other", "or_join", "projection",
            "intersection"]
@@ -226,6 +227,14 @@ def run_step(name, c, other, cs, z_new, z_old, k, t, num, out, klass0, idx):
         c.knotvector = [u + 1 for u in c.knotvector]
     elif name == "fit_curve":
         c.fit_curve(other)
+    elif name == "fit_rational":
+        # fit a rational Bezier curve of higher degree with very unequal weights: the projected weight function may
+        # change sign, in which case the request is refused - and must leave c as it was
+        deg = c.degree + 1 + k % 2
+        one = lib.conv_val(F(1), num)
+        pts = [c.ctrlpoints[i % n] + (i % 3) * c.ctrlpoints[0] for i in range(deg + 1)]
+        R = lib.Curve([umin] * (deg + 1) + [umax] * (deg + 1), pts, [100 * one] + [one] * deg)
+        c.fit_curve(R)
     elif name == "fit_points_few":
         c.fit_points([zero] * max(n - 1, 0))
     elif name == "fit_points_ok":
